@@ -75,13 +75,32 @@ def run_prune_oracle(ctx, ncases):
         eps = ctx.rng.choice([1e-2, 1e-3, 1e-4])
         dim = ctx.rng.choice([1, 2, 3])
         n = ctx.rng.randint(3, 7)
+        dens = ctx.rng.choice([1.0, 1.0, 1000.0, 4095.0, 0.01])     # the tolerance is absolute, whatever the magnetisation scale
+        weak = ctx.rng.random() < 0.4
+        if weak:
+            dens, eps = ctx.rng.choice([1000.0, 4095.0]), ctx.rng.choice([1e-2, 1e-2, 1e-3])
 
         def build(tol):
             rng2 = __import__("random").Random(i * 7919 + ctx.seed)
-            seq, counts = [], []
-            for _ in range(n):
-                seq.append(epg.T(rng2.choice([20, 45, 90, 130]), rng2.choice([0, 30, 90])))
-                v = [rng2.choice([1, -1, 2])] + [rng2.choice([0, 1, -1]) for _ in range(dim - 1)]
+            seq, counts = [epg.PD(dens)], []
+            if weak:
+                # a weak pathway isolated in its own phase state (unequal gradient areas), refocused later by a 180 pulse:
+                # its amplitude dens*sin^2(a/2) lies decades below the largest state and above the absolute tolerance
+                u = [rng2.choice([1, -1])] + [rng2.choice([0, 1, -1]) for _ in range(dim - 1)]
+                a1 = rng2.choice([1, 2]); a2 = a1 + rng2.choice([1, 2])
+                mul = lambda c: np.array([c * x for x in u])
+                seq += [epg.T(90, rng2.choice([0, 90])), epg.S(mul(a1), prune=tol), epg.T(rng2.choice([3, 5, 10]), 0), epg.S(mul(a2), prune=tol),
+                        epg.T(180, 0), epg.S(mul(a2 - a1), prune=tol), epg.ADC, epg.T(180, 0), epg.S(mul(a2 - a1), prune=tol), epg.ADC]
+                return seq
+            echo = rng2.random() < 0.5      # a constant gradient with refocusing pulses: every state comes back to an echo
+            v0 = [rng2.choice([1, -1, 2])] + [rng2.choice([0, 1, -1]) for _ in range(dim - 1)]
+            for j in range(n):
+                if echo:
+                    seq.append(epg.T(90, 90) if j == 0 else epg.T(rng2.choice([3, 5, 10, 20, 150, 180, 180]), rng2.choice([0, 30])))   # weak and strong refocusing: amplitudes over several decades
+                    v = v0
+                else:
+                    seq.append(epg.T(rng2.choice([20, 45, 90, 130]), rng2.choice([0, 30, 90])))
+                    v = [rng2.choice([1, -1, 2])] + [rng2.choice([0, 1, -1]) for _ in range(dim - 1)]
                 seq.append(epg.S(np.array(v), prune=tol))
                 seq.append(epg.E(rng2.choice([5, 10, 30]), 800, rng2.choice([20, 60])))
                 seq.append(epg.ADC)
@@ -104,7 +123,7 @@ def run_prune_oracle(ctx, ncases):
         if np.any(err > 2 * eps * cum + 1e-12):
             j = int(np.argmax(err - 2 * eps * cum))
             ctx.report("pruning with eps=%g changed acquisition %d by %.3g > 2*eps*%d" % (eps, j, err[j], cum[j]),
-                       {"eps": eps, "dim": dim, "n": n, "i": i}, found_input=True, signature={"why": "prune-bound"})
+                       {"eps": eps, "dim": dim, "n": n, "i": i, "density": dens}, found_input=True, signature={"why": "prune-bound"})
 
 
 def run_merge_oracle(ctx, ncases):
@@ -252,8 +271,12 @@ def run_pruner_oracle(ctx, ncases):
         alpha, tau = float(ctx.rng.choice([20, 60, 90])), float(ctx.rng.choice([5.0, 20.0]))
         case = {"thr": thr, "T2": T2, "T1": T1, "n": n, "alpha": alpha, "tau": tau}
 
+        early = ctx.rng.random() < 0.35       # a differentiated delay BEFORE the excitation: its partial is zero, then grows
+        case["early"] = early
+
         def build():
-            seq = [epg.T(alpha, 90, order1="alpha"), epg.E(tau, np.array(T1), np.array(T2), order1="T2"), epg.ADC]
+            seq = ([epg.E(tau, np.array(T1), np.array(T2), order1="T2")] if early else []) + \
+                  [epg.T(alpha, 90, order1="alpha"), epg.E(tau, np.array(T1), np.array(T2), order1="T2"), epg.ADC]
             for j in range(n):
                 seq += [epg.T(30.0 + 10 * j, 0.0), epg.S(1), epg.E(tau, np.array(T1), np.array(T2)), epg.ADC]
             return seq
@@ -262,6 +285,13 @@ def run_pruner_oracle(ctx, ncases):
             ref = np.asarray(epg.simulate(build(), probe=probe))
             pr = Counting(condition=thr)
             got = np.asarray(epg.simulate(build(), probe=probe, callback=pr))
+            # the same pruner object used for a second simulation must behave like a fresh one
+            rem1 = pr.removed
+            got2 = np.asarray(epg.simulate(build(), probe=probe, callback=pr))
+            if got2.shape != got.shape or np.abs(got2 - got).max() > 2 * thr * max(pr.removed - rem1, rem1) + 1e-12:
+                ctx.report("a PartialsPruner object reused for a second simulate() gives a different Jacobian (max change %.3g)" % (
+                    np.abs(got2 - got).max() if got2.shape == got.shape else float("inf")), {"pruner": case}, found_input=True,
+                    signature={"why": "pruner-reuse"})
         except Exception as e:
             ctx.report("simulation with a partials pruner raised %s: %s" % (type(e).__name__, str(e)[:200]), {"pruner": case}, found_input=True,
                        signature={"raises": type(e).__name__, "site": "PartialsPruner"})
@@ -303,7 +333,7 @@ def run(ctx):
     run_trunc_oracle(ctx, 30 if quick else 1500)
     run_ndecho_oracle(ctx, 20 if quick else 600)
     run_pruner_oracle(ctx, 15 if quick else 500)
-    run_prune_oracle(ctx, 12 if quick else 400)
+    run_prune_oracle(ctx, 30 if quick else 600)
     run_merge_oracle(ctx, 12 if quick else 400)
     run_sum_invariant_oracle(ctx, 25 if quick else 800)
     ctx.cov["trusted_base"] += ["hand-written model Model/Ops.v tied to shift.py by exact correspondence of truncated programs",
